@@ -120,6 +120,16 @@ def array_binop(op, a, b):
         # bool + bool -> logical or / and
         fn = (lambda x, y: z3.Or(x, y)) if op == "Add" else (lambda x, y: z3.And(x, y))
         return A.ewise(fn, dt, aa, bb)
+    if dt.kind == "c":
+        # complex arithmetic is opaque: uninterpreted operations over an uninterpreted sort (congruence only)
+        CS = A.sort_of(dt)
+        opf = z3.Function(f"c{op}!uf", CS, CS, CS)
+
+        def lift(src, t):
+            if np.dtype(src).kind == "c":
+                return t
+            return z3.Function("c_of_real!uf", z3.RealSort(), CS)(to_real(A.cast_term(src, "float64", t)))
+        return A.ewise(lambda x, y: opf(lift(aa.dtype, x), lift(bb.dtype, y)), dt, aa, bb)
     # rounding-error model (A-FPSTD) keyed per operation instance: one error function per call site execution
     errf = {}
 
